@@ -532,6 +532,15 @@ def extract_flags():
     flags["send_if_connected_ignores_pause"] = (len(ifs) == 1 and len(sends) == 1
                                                 and ast.unparse(ifs[0].test) == "self._connection"
                                                 and any(n is sends[0] for b in ifs[0].body for n in ast.walk(b)))
+    # C16: DilatedConnectionProtocol.dataReceived catches exactly `Disconnect` (-> loseConnection): any other exception
+    # raised while a record is handled escapes to the reactor, which drops the transport (so the records that follow in
+    # the same segment are lost WITH the connection, never stranded in the framer)
+    from wormhole._dilation import connection as _dc16
+    fn = ast.parse(textwrap.dedent(inspect.getsource(_dc16.DilatedConnectionProtocol.dataReceived))).body[0]
+    tries = [n for n in ast.walk(fn) if isinstance(n, ast.Try)]
+    flags["data_received_catches_only_disconnect"] = (
+        len(tries) == 1 and len(tries[0].handlers) == 1 and not tries[0].finalbody and not tries[0].orelse
+        and tries[0].handlers[0].type is not None and ast.unparse(tries[0].handlers[0].type) == "Disconnect")
     # C13: WHEN a subchannel id is allocated.  SubchannelConnectorEndpoint.connect reserves its id only after
     # `yield …_main_channel.when_fired()` (so the role is known), and choose_role — not allocate_subchannel_id —
     # seeds Manager._next_subchannel_id, in both role branches.
